@@ -99,6 +99,16 @@ func (e *Eval) Prepare(flags ...[]byte) error {
 	// Preparing again starts from scratch: nothing a previous call
 	// to Prepare compiled is kept.
 	//
+	// A Prepare which fails leaves the evaluator as it was: what the
+	// previous call compiled is still what Run, Execute and Dump use.
+	prevInstructions, prevConstants, prevFunctions := e.instructions, e.constants, e.functions
+	done := false
+	defer func() {
+		if !done {
+			e.instructions, e.constants, e.functions = prevInstructions, prevConstants, prevFunctions
+		}
+	}()
+
 	e.instructions = nil
 	e.constants = nil
 	e.functions = make(map[string]environment.UserFunction)
@@ -185,6 +195,7 @@ func (e *Eval) Prepare(flags ...[]byte) error {
 	//
 	// All done; no errors.
 	//
+	done = true
 	return nil
 }
 
